@@ -269,6 +269,83 @@ def _canonicalise_module_constants(tree):
     return count
 
 
+def _canonicalise_attr_loops(tree):
+    """`for name in ("a", "b"): setattr(out, name, copy(getattr(self, name)))` is read as the two assignments it performs, and getattr(x, "a") / setattr(x, "a", v)
+    with a literal name as x.a / x.a = v: attribute traffic by constant name is ordinary attribute traffic.  Loops are unrolled only when the loop variable occurs
+    nowhere but as the name argument of getattr / setattr / hasattr, over at most 16 string literals."""
+    import copy
+    count = 0
+
+    def literal_attr(n):
+        """getattr(x, 'lit') -> x.lit ; statement setattr(x, 'lit', v) -> x.lit = v"""
+        nonlocal count
+
+        class T(ast.NodeTransformer):
+            def visit_Call(self, c):
+                nonlocal count
+                self.generic_visit(c)
+                if isinstance(c.func, ast.Name) and c.func.id == "getattr" and len(c.args) == 2 and not c.keywords and isinstance(c.args[1], ast.Constant) \
+                        and isinstance(c.args[1].value, str) and c.args[1].value.isidentifier():
+                    count += 1
+                    return ast.copy_location(ast.Attribute(value=c.args[0], attr=c.args[1].value, ctx=ast.Load()), c)
+                return c
+
+            def visit_Expr(self, st):
+                nonlocal count
+                self.generic_visit(st)
+                c = st.value
+                if isinstance(c, ast.Call) and isinstance(c.func, ast.Name) and c.func.id == "setattr" and len(c.args) == 3 and not c.keywords \
+                        and isinstance(c.args[1], ast.Constant) and isinstance(c.args[1].value, str) and c.args[1].value.isidentifier():
+                    count += 1
+                    return ast.copy_location(ast.Assign(targets=[ast.Attribute(value=c.args[0], attr=c.args[1].value, ctx=ast.Store())], value=c.args[2]), st)
+                return st
+        return T().visit(n)
+
+    def unroll(blk):
+        out = []
+        for st in blk:
+            for fld in ("body", "orelse", "finalbody"):
+                v = getattr(st, fld, None)
+                if isinstance(v, list) and v and isinstance(v[0], ast.stmt):
+                    setattr(st, fld, unroll(v))
+            if isinstance(st, ast.Try):
+                for h in st.handlers:
+                    h.body = unroll(h.body)
+            if isinstance(st, ast.For) and isinstance(st.target, ast.Name) and not st.orelse and isinstance(st.iter, (ast.Tuple, ast.List)) and 0 < len(st.iter.elts) <= 16 \
+                    and all(isinstance(e, ast.Constant) and isinstance(e.value, str) and e.value.isidentifier() for e in st.iter.elts):
+                v = st.target.id
+                uses = [n for b in st.body for n in ast.walk(b) if isinstance(n, ast.Name) and n.id == v]
+                name_args = [c.args[1] for b in st.body for c in ast.walk(b) if isinstance(c, ast.Call) and isinstance(c.func, ast.Name)
+                             and c.func.id in ("getattr", "setattr", "hasattr") and len(c.args) >= 2 and not c.keywords]
+                flow = any(isinstance(n, (ast.Break, ast.Continue, ast.Return)) for b in st.body for n in ast.walk(b))
+                if uses and all(any(u is a for a in name_args) for u in uses) and not flow:
+                    for e in st.iter.elts:
+                        for b in st.body:
+                            nb = copy.deepcopy(b)
+                            for n in ast.walk(nb):
+                                for fld, val in ast.iter_fields(n):
+                                    if isinstance(val, list):
+                                        for i_, x in enumerate(val):
+                                            if isinstance(x, ast.Name) and x.id == v and isinstance(x.ctx, ast.Load):
+                                                val[i_] = ast.copy_location(ast.Constant(value=e.value), x)
+                                    elif isinstance(val, ast.Name) and val.id == v and isinstance(val.ctx, ast.Load):
+                                        setattr(n, fld, ast.copy_location(ast.Constant(value=e.value), val))
+                            out.append(nb)
+                    nonlocal count
+                    count += 1
+                    continue
+            out.append(st)
+        return out
+    for fn in ast.walk(tree):
+        if isinstance(fn, (ast.FunctionDef, ast.AsyncFunctionDef)):
+            fn.body = unroll(fn.body)
+    for fn in ast.walk(tree):
+        if isinstance(fn, (ast.FunctionDef, ast.AsyncFunctionDef)):
+            fn.body = [literal_attr(st) for st in fn.body]
+    ast.fix_missing_locations(tree)
+    return count
+
+
 _NEGCMP = {ast.NotEq: ast.Eq, ast.IsNot: ast.Is, ast.NotIn: ast.In}
 
 
@@ -409,6 +486,7 @@ class Module:
         _canonicalise_comparisons(self.tree)
         self.aliases_canonicalised = 0 if os.environ.get("VERIF_NO_ALIAS_CANON") == "1" else _canonicalise_import_aliases(self.tree)
         self.constants_canonicalised = 0 if os.environ.get("VERIF_NO_CONST_CANON") == "1" else _canonicalise_module_constants(self.tree)
+        self.attr_loops_canonicalised = 0 if os.environ.get("VERIF_NO_ATTRLOOP_CANON") == "1" else _canonicalise_attr_loops(self.tree)
         self.subscripts_canonicalised = 0 if os.environ.get("VERIF_NO_SUBSCRIPT_CANON") == "1" else _canonicalise_subscripts(self.tree)
         self.branches_canonicalised = 0 if os.environ.get("VERIF_NO_BRANCH_CANON") == "1" else _canonicalise_branches(self.tree)
         self.temporaries_canonicalised = 0 if os.environ.get("VERIF_NO_TEMP_CANON") == "1" else _canonicalise_temporaries(self.tree)
